@@ -102,7 +102,27 @@ func (r *rng) halfway() string {
 	return s
 }
 
+// tagLookalike: a number whose 64-bit value word reads as a tape tag word (tag character in the top byte, a small
+// payload) — a NOP with a plausible skip count, a container start pointing nearby, …: anything that scans value words
+// as if they were tag words is misled by it
+func (r *rng) tagLookalike() string {
+	tags := "NNNNNNNN\"{[}]rludtfn" // NOP look-alikes most often: gaps are what readers and deleters skip over
+	tag := uint64(tags[r.intn(len(tags))])
+	w := tag<<56 | uint64(r.intn(12))
+	if r.chance(1, 2) {
+		return strconv.FormatUint(w, 10)
+	}
+	f := math.Float64frombits(w)
+	if math.IsNaN(f) || math.IsInf(f, 0) {
+		return strconv.FormatUint(w, 10)
+	}
+	return strconv.FormatFloat(f, 'g', -1, 64)
+}
+
 func (r *rng) number() string {
+	if r.chance(1, 12) {
+		return r.tagLookalike()
+	}
 	switch r.intn(12) {
 	case 0:
 		return r.pick(boundaryInts)
